@@ -5,7 +5,8 @@ import Cx.Proofs.Swar
 
   Slim Teddy (Go logic with the scalar candidate finder): the nibble-mask fingerprint never hides a literal, hence
   `Find` = least offset at or after `start` where some literal occurs; a reported match is a real occurrence; with
-  at most 8 literals the reported literal is the first one in pattern order (what "complete" needs).
+  any number of literals the reported literal is the first one in pattern order (what "complete" needs; before the
+  fix commit this needed ≤ 8 literals: the hypothesis the proof forced was the defect).
   Memchr/Memmem prefilters: C18's theorems.  The SSSE3/AVX2 kernels, Aho-Corasick (external library) and the
   wrappers are tied by the exhaustive correspondence of the C16 check.
 -/
@@ -23,9 +24,9 @@ theorem C16_teddy_find (t : T) (wf : WF t) (h : Bytes) (hb : ∀ k, h.at k < 256
 theorem C16_teddy_match_is_occurrence (t : T) (h : Bytes) (start s id : Nat) (hr : findMatch t h start = some (s, id)) :
     ∃ p, t.patterns[id]? = some p ∧ occursAt h p s = true ∧ start ≤ s := findMatch_sound t h start s id hr
 
-theorem C16_teddy_priority_le8 (t : T) (wf : WF t) (h : Bytes) (hb : ∀ k, h.at k < 256) (start s id : Nat)
-    (h8 : t.patterns.length ≤ 8) (hr : findMatch t h start = some (s, id)) :
-    ∀ j p, j < id → t.patterns[j]? = some p → occursAt h p s = false := findMatch_priority t wf h hb start s id h8 hr
+theorem C16_teddy_priority (t : T) (wf : WF t) (h : Bytes) (hb : ∀ k, h.at k < 256) (start s id : Nat)
+    (hr : findMatch t h start = some (s, id)) :
+    ∀ j p, j < id → t.patterns[j]? = some p → occursAt h p s = false := findMatch_priority t wf h hb start s id hr
 
 theorem C16_memmem (h n : Bytes) (rareIdx : Nat) (hr : rareIdx < n.size) :
     Swar.memmemSingle h n rareIdx = Swar.naiveMemmem h n := Swar.memmemSingle_eq_naive h n rareIdx hr
